@@ -41,7 +41,7 @@ func (a *Stats) Add(b Stats) {
 type Solver struct {
 	cmd     *exec.Cmd
 	in      io.WriteCloser
-	out     *bufio.Reader
+	lines   chan string
 	Stats   Stats
 	Log     io.Writer // optional transcript
 	levels  [][]int   // per push level: term IDs defined / var names declared
@@ -81,7 +81,8 @@ func (s *Solver) start() error {
 		return err
 	}
 	s.in = in
-	s.out = bufio.NewReaderSize(out, 1<<16)
+	s.lines = make(chan string, 4096)
+	go s.pump(bufio.NewReaderSize(out, 1<<16), s.lines)
 	s.levels = [][]int{nil}
 	s.ufLevel = [][]string{nil}
 	s.defined = map[int]bool{}
@@ -203,8 +204,31 @@ func (s *Solver) Assert(st *Store, t *Term) {
 	s.send(fmt.Sprintf("(assert %s)", Ref(t)))
 }
 
+// pump drains the solver's stdout into a channel so that a chatty solver (warnings,
+// error lines) can never dead-lock against our writes to its stdin.
+func (s *Solver) pump(out *bufio.Reader, ch chan string) {
+	for {
+		line, err := out.ReadString('\n')
+		if line != "" {
+			ch <- line
+		}
+		if err != nil {
+			close(ch)
+			return
+		}
+	}
+}
+
+func (s *Solver) rawLine() (string, error) {
+	line, ok := <-s.lines
+	if !ok {
+		return "", io.EOF
+	}
+	return line, nil
+}
+
 func (s *Solver) readLine() (string, error) {
-	line, err := s.out.ReadString('\n')
+	line, err := s.rawLine()
 	return strings.TrimSpace(line), err
 }
 
@@ -326,25 +350,28 @@ func (s *Solver) readSexp() (string, error) {
 	started := false
 	inBar := false
 	for {
-		c, err := s.out.ReadByte()
+		line, err := s.rawLine()
 		if err != nil {
 			return "", err
 		}
-		b.WriteByte(c)
-		if inBar {
-			if c == '|' {
-				inBar = false
+		for i := 0; i < len(line); i++ {
+			c := line[i]
+			b.WriteByte(c)
+			if inBar {
+				if c == '|' {
+					inBar = false
+				}
+				continue
 			}
-			continue
-		}
-		switch c {
-		case '|':
-			inBar = true
-		case '(':
-			depth++
-			started = true
-		case ')':
-			depth--
+			switch c {
+			case '|':
+				inBar = true
+			case '(':
+				depth++
+				started = true
+			case ')':
+				depth--
+			}
 		}
 		if started && depth == 0 {
 			return b.String(), nil
